@@ -142,22 +142,7 @@ def run(ctx):
 
     # ---- R7 numbers and texts are not filtered on the way
     ctx.rule("C06.R7", "to_json writes every finite number as itself: the Number arm is not split by a condition other than finiteness (the only numbers JSON cannot hold are NaN and the infinities); the piped / flag text handed to the JSON parser is the text that was read", floor=2)
-    tj = core.hir_fn("blots_core::values::SerializableValue::to_json")
-    mm = H.main_match(tj["body"], "values::SerializableValue")
-    num_arms = [a for a in (mm["arms"] if mm else []) if any(H.last(v) == "Number" for v in H.pat_variants(a["pat"]))]
-    if not num_arms:
-        ctx.inst("C06.R7", "to_json#Number", None, "no Number arm found in to_json", H.loc(tj["body"]))
-    else:
-        FIN = {"is_finite", "is_nan", "is_infinite"}
-        conds = []
-        for a in num_arms:
-            if a.get("guard") is not None:
-                conds += [x["name"] for x in H.walk(a["guard"]) if H.kind(x) == "MethodCall"] + [x["op"] for x in H.walk(a["guard"]) if H.kind(x) == "Binary" and x["op"] in ("Eq", "Ne", "Lt", "Le", "Gt", "Ge")]
-            for x in H.walk(a["body"]):
-                if H.kind(x) == "If":
-                    conds += [y["name"] for y in H.walk(x["cond"]) if H.kind(y) == "MethodCall"] + [y["op"] for y in H.walk(x["cond"]) if H.kind(y) == "Binary" and y["op"] in ("Eq", "Ne", "Lt", "Le", "Gt", "Ge")]
-        other = sorted(set(c for c in conds if c not in FIN))
-        ctx.inst("C06.R7", "to_json#Number", not other, "conditions that select how a number is written: %s (anything but a finiteness test sends some finite numbers - subnormals, large magnitudes - down a different path)" % (sorted(set(conds)) or "none"), H.loc(num_arms[0]["body"]))
+    to_json_number_rule(ctx, "C06.R7", core)
     REWRITE = re.compile(r"::(replace|replacen|trim\w*|to_lowercase|to_uppercase|to_ascii_\w+|strip_\w+|split\w*|chars|filter|retain|truncate|remove|drain)$")
     k7 = 0
     for name, f in sorted(cli.mir.items()):
@@ -332,3 +317,23 @@ def json_text_rule(ctx, rid, crates):
             if lossy:
                 ctx.inst(rid, "%s#lossy-decoding" % fname.replace("blots_core::", ""), False, "lossy decoding of bytes to text: %s" % [H.loc(x) for x in lossy], H.loc(lossy[0]))
     ctx.inst(rid, "lossy-decoding#none", True, "every function of the three crates was scanned for from_utf8_lossy / to_string_lossy / from_utf8_unchecked; %d function(s) serialise with serde_json" % n_ser, None)
+
+
+def to_json_number_rule(ctx, rid, core):
+    """to_json writes every finite number through one path (shared with C16: the JSON text of a number is its own shortest digits)"""
+    tj = core.hir_fn("blots_core::values::SerializableValue::to_json")
+    mm = H.main_match(tj["body"], "values::SerializableValue")
+    num_arms = [a for a in (mm["arms"] if mm else []) if any(H.last(v) == "Number" for v in H.pat_variants(a["pat"]))]
+    if not num_arms:
+        ctx.inst(rid, "to_json#Number", None, "no Number arm found in to_json", H.loc(tj["body"]))
+    else:
+        FIN = {"is_finite", "is_nan", "is_infinite"}
+        conds = []
+        for a in num_arms:
+            if a.get("guard") is not None:
+                conds += [x["name"] for x in H.walk(a["guard"]) if H.kind(x) == "MethodCall"] + [x["op"] for x in H.walk(a["guard"]) if H.kind(x) == "Binary" and x["op"] in ("Eq", "Ne", "Lt", "Le", "Gt", "Ge")]
+            for x in H.walk(a["body"]):
+                if H.kind(x) == "If":
+                    conds += [y["name"] for y in H.walk(x["cond"]) if H.kind(y) == "MethodCall"] + [y["op"] for y in H.walk(x["cond"]) if H.kind(y) == "Binary" and y["op"] in ("Eq", "Ne", "Lt", "Le", "Gt", "Ge")]
+        other = sorted(set(c for c in conds if c not in FIN))
+        ctx.inst(rid, "to_json#Number", not other, "conditions that select how a number is written: %s (anything but a finiteness test sends some finite numbers - subnormals, large magnitudes - down a different path)" % (sorted(set(conds)) or "none"), H.loc(num_arms[0]["body"]))
